@@ -87,3 +87,28 @@ impl From<RuntimeError> for crate::ffi::ParamError {
         }
     }
 }
+
+/// accessors for the verification harness in /verif (hook H7, see /verif/MANIFEST.json):
+/// what the request builders of the binding layer hand to the library
+#[cfg(dnp3_verif)]
+pub mod verif {
+    /// headers built by a `WriteDeadBandRequest`
+    pub unsafe fn dead_band_headers(
+        request: *mut crate::WriteDeadBandRequest,
+    ) -> Vec<dnp3::master::DeadBandHeader> {
+        match request.as_mut() {
+            Some(r) => r.build(),
+            None => Vec::new(),
+        }
+    }
+
+    /// READ request built by a `Request`
+    pub unsafe fn read_request(request: *mut crate::Request) -> Option<dnp3::master::ReadRequest> {
+        request.as_ref().map(|r| r.build_read_request())
+    }
+
+    /// headers built by a `Request`
+    pub unsafe fn headers(request: *mut crate::Request) -> Option<dnp3::master::Headers> {
+        request.as_ref().map(|r| r.build_headers())
+    }
+}
